@@ -57,6 +57,7 @@ enum {
     SLUV_Y_BEFORE_RELEASE, SLUV_Y_AFTER_RELEASE, SLUV_Y_BEFORE_PRUNE,
     SLUV_Y_PRUNE_SCAN, SLUV_Y_MID_SWAP, SLUV_Y_BEFORE_WAIT,
     SLUV_Y_NSUPER_LSUB, SLUV_Y_BEFORE_DONE, SLUV_Y_SUB_READ, SLUV_Y_WORK_ALIGN,
+    SLUV_Y_LSUB_FILL,
     SLUV_Y_MAX
 };
 
